@@ -355,7 +355,7 @@ func C15_Large() {
 	B := rt.Param("B", 24)
 	var vals []int
 	for i := 0; i < B; i++ {
-		vals = append(vals, 10*(1+(i*7)%B))
+		vals = append(vals, 10*(1+(i*11)%B)) // 11 is coprime with both registered sizes
 	}
 	var m []int
 	half := data.NewIntSet(vals[:B/2]...)
